@@ -433,7 +433,7 @@ func init() {
 		ID:        "C20",
 		MinCounts: map[string]int{"retries_after_failure": 500, "by_value_reader_cases": 6},
 		Level:     "fault_enumeration",
-		Rule: fmt.Sprintf("exhaustive fault enumeration (complete in both tiers, %d cases): operation in {Builder.Build with WithRNG, New(rng,...), Append on a built parent, Append on a re-loaded parent, both Appends again with a source that REPLAYS the stream the parent was built from (its first 32 bytes are the secret the parent already carries; failure points 32..63, so a library that draws a second time is handed the error), Build / New / Append with a source whose first 32 bytes are zero (failure points 32..63 likewise), and Build asked AGAIN on the same builder after the failure with the source recovered (the second token's secret must be 32 consecutive delivered bytes), every Append case also checks the PARENT afterwards (same bytes, still verifies, a later Append with a healthy source gives a verifying token) and every second one appends an empty block, and six cases with readers passed by value whose value is the zero value of their type (one never delivers, one delivers zeros)} x failure point k in 0..31 delivered bytes x error in {io.EOF, io.ErrUnexpectedEOF, custom} x {error on the next read, error together with the last bytes} x delivery in {one read, one byte per read, zero-length reads interleaved}, plus the no-failure control of every delivery. Oracle: a source that handed the library an error must give an error and no token (and no panic); a returned token must carry exactly the delivered 32 bytes as next secret, announce the public key of that seed and verify under the independent chain verifier. ", c20Total()+6) +
+		Rule: fmt.Sprintf("exhaustive fault enumeration (complete in both tiers, %d cases): operation in {Builder.Build with WithRNG, New(rng,...), Append on a built parent, Append on a re-loaded parent, both Appends again with a source that REPLAYS the stream the parent was built from (its first 32 bytes are the secret the parent already carries; failure points 32..63, so a library that draws a second time is handed the error), Build / New / Append with a source whose first 32 bytes are zero (failure points 32..63 likewise), and Build asked AGAIN on the same builder after the failure with the source recovered (the second token's secret must be 32 consecutive delivered bytes), every Append case also checks the PARENT afterwards (same bytes, still verifies, a later Append with a healthy source gives a verifying token) and every second one appends an empty block, and six cases with readers passed by value whose value is the zero value of their type (one never delivers, one delivers zeros)} x failure point k in 0..31 delivered bytes x error in {io.EOF, io.ErrUnexpectedEOF, custom} x {error on the next read, error together with the last bytes} x delivery in {one read, one byte per read, zero-length reads interleaved, twenty zero-length reads in a row in the middle of a draw, error handed over once after which the source works again}, plus the no-failure control of every delivery. Oracle: a source that handed the library an error must give an error and no token (and no panic); a returned token must carry exactly the delivered 32 bytes as next secret, announce the public key of that seed and verify under the independent chain verifier. ", c20Total()+6) +
 			"Non-trivial = distinct (operation, k, error, timing, delivery) tuples; every one injects a real fault or is a control.",
 		Assumptions: []string{"crypto/ed25519.GenerateKey draws exactly 32 bytes from the supplied reader with io.ReadFull (true for the pinned toolchain go1.23)"},
 		NumCases:    func(string) int { return c20Total() + 6 },
